@@ -309,7 +309,7 @@ class CallMixin:
         saved = self.mod
         self.mod = self.lookup_function(qn)[0]
         try:
-            m = self.mutated_roots(fdef.body, st) & names
+            m = {(x[0] if isinstance(x, tuple) else x) for x in self.mutated_roots(fdef.body, st)} & names
         finally:
             self.mod = saved
         self._mut_cache[qn] = m
@@ -321,6 +321,11 @@ class CallMixin:
         if desc is None:
             raise VCError("call of function parameter %s without func_params entry at line %d" % (fv.name, node.lineno))
         args, kwargs = self.eval_args(node, st)
+        if desc["returns"] == "keyfn":
+            # a pure function of the *content* of its (string) argument, used as a dictionary key
+            h = self.ufunc("fp_" + fv.name, [INT], INT)
+            self.trust("function parameter '%s' assumed pure (a function of its argument's content)" % fv.name)
+            return Opaque(("strkey", h(self.str_key(st, args[0], node))))
         res = self.make_value(desc["returns"], st, "fp_" + fv.name)
         saved = st.vars
         try:
